@@ -389,11 +389,16 @@ class PDFPageInterpreter:
 
         def get_colorspace(spec: object) -> Optional[PDFColorSpace]:
             if isinstance(spec, list):
+                if not spec:
+                    return None
                 name = literal_name(spec[0])
             else:
                 name = literal_name(spec)
             if name == "ICCBased" and isinstance(spec, list) and len(spec) >= 2:
-                return PDFColorSpace(name, stream_value(spec[1])["N"])
+                ncomponents = resolve1(stream_value(spec[1]).get("N"))
+                if not isinstance(ncomponents, int):
+                    return None
+                return PDFColorSpace(name, ncomponents)
             elif name == "DeviceN" and isinstance(spec, list) and len(spec) >= 2:
                 return PDFColorSpace(name, len(list_value(spec[1])))
             else:
